@@ -155,6 +155,10 @@ def c06_3(c: Ctx) -> None:
     eh = c.unit(SVC, 'EventBus.execute_handler')
     pe_like = {c.unit(SVC, n).key for n in ('EventBus.process_event', 'EventBus.dispatch', 'EventBus.step', 'EventBus.execute_handler', 'EventBus._execute_handlers')}
     inv = {id(call) for _, call in handler_invocations(c)}
+    from .c01 import HANDLER_WRAPPERS, exec_handler_sites
+
+    exec_handler_sites(c)  # discovers nested wrappers of execute_handler (coroutines that await it exactly once on every path)
+    handler_wrappers = HANDLER_WRAPPERS.get(id(c.prog), {})
     for u, call in sites:
         if call_name(call) == 'gather':
             payloads = [a for a in call.args if not isinstance(a, ast.Starred)]  # *tasks: already classified where they were created
@@ -206,7 +210,7 @@ def c06_3(c: Ctx) -> None:
                 check_runloop_task(c, u, call, rl)
             elif id(pl) in inv or r == 'opaque':
                 check_handler_task(c, u, call, pl)
-            elif isinstance(r, Unit) and r.key == eh.key:
+            elif isinstance(r, Unit) and (r.key == eh.key or r.name in handler_wrappers):
                 g = c.cfg(u)
                 facts = Facts(lambda a: a == f'{u.params()[0]}.parallel_handlers', cg=c.cg, unit=u)
                 st = q.stmt_of(call)
